@@ -1,5 +1,6 @@
 import NeumannModel.Common.Proto
 import NeumannModel.Codec.Model
+import NeumannModel.Codec.Sparse
 /- Line-protocol driver for the codec model (C20). -/
 open Neumann Neumann.Proto Neumann.Codec
 
@@ -9,6 +10,19 @@ def showFrameErr : FrameErr → String
 
 def showPairs (ps : List (Int × Nat)) : String :=
   showInts (ps.map (·.1)) ++ ";" ++ showNats (ps.map (·.2))
+
+def showSV (s : SV) : String := s!"{s.dim}|{showNats s.pos}|{showNats s.vals}"
+def showSVRes : Except SVErr SV → String
+  | .ok s => "ok " ++ showSV s
+  | .error .dimExceeded => "err dim"
+  | .error .oob => "err oob"
+def showValRes : ValRes → String
+  | .ok => "ok" | .zeroDim => "zero_dim" | .dimTooLarge => "dim_too_large" | .nan => "nan"
+  | .inf => "inf" | .lenMismatch => "len_mismatch" | .posOob => "pos_oob" | .notSorted => "not_sorted"
+def parseSV (d p v : String) : Option SV :=
+  match d.toNat?, parseNats p, parseNats v with
+  | some dim, some ps, some vs => some ⟨dim, ps, vs⟩
+  | _, _, _ => none
 
 def codecStep (_ : Unit) (line : String) : Unit × String :=
   let bad := ((), "bad-op")
@@ -52,6 +66,26 @@ def codecStep (_ : Unit) (line : String) : Unit × String :=
       | some b => (match v2Split b with
           | .ok (f, d) => ((), s!"ok {f} {hex d}") | .error e => ((), "err " ++ showFrameErr e))
       | none => bad
+  | ["sp_from_dense", xs] => match parseNats xs with
+      | some d => ((), showSVRes (tryFromDense d)) | none => bad
+  | ["sp_from_dense_thr", t, xs] => match t.toNat?, parseNats xs with
+      | some t, some d => ((), showSVRes (tryFromDenseThr d t)) | _, _ => bad
+  | ["sp_to_dense", d, p, v] => match parseSV d p v with
+      | some s => ((), match toDense s with | some l => "ok " ++ showNats l | none => "panic") | none => bad
+  | ["sp_from_parts", d, p, v] => match d.toNat?, parseNats p, parseNats v with
+      | some dim, some ps, some vs => ((), showSVRes (tryFromParts dim ps vs)) | _, _, _ => bad
+  | ["sp_get", d, p, v, i] => match parseSV d p v, i.toNat? with
+      | some s, some i => ((), match svGet s i with | some x => toString x | none => "panic") | _, _ => bad
+  | ["sp_set", d, p, v, i, x] => match parseSV d p v, i.toNat?, x.toNat? with
+      | some s, some i, some x => ((), showSVRes (trySet s i x)) | _, _, _ => bad
+  | ["sp_build", d, p, v] => match d.toNat?, parseNats p, parseNats v with
+      | some dim, some ps, some vs =>
+        ((), showSV (builderBuild dim ((ps.zip vs).foldl (fun acc pv => builderPush acc pv.1 pv.2) [])))
+      | _, _, _ => bad
+  | ["sp_validate", mx, d, p, v] => match mx.toNat?, parseSV d p v with
+      | some m, some s => ((), showValRes (validate m s)) | _, _ => bad
+  | ["sp_validate_old", mx, d, p, v] => match mx.toNat?, parseSV d p v with
+      | some m, some s => ((), showValRes (validateOld m s)) | _, _ => bad
   | _ => bad
 
 def main : IO Unit := run codecStep ()
